@@ -1,5 +1,6 @@
 import Ruint.Lemmas.Shift
 import Ruint.Lemmas.GenShift
+import Ruint.Lemmas.GenShiftWrap
 
 /-!
 # C05 — shifts and rotations move bits exactly and report lost bits exactly
@@ -429,5 +430,32 @@ theorem gen_apply_mask_eq (bits : ℕ) (hb : 0 < bits) (hN : nlimbs bits < 2 ^ 6
     (hl : l.length = nlimbs bits) (hw : AllLt l) :
     Ruint.Gen.uint_apply_mask bits (nlimbs bits) l = maskTop bits l :=
   Ruint.GenShift.apply_mask_eq bits hb hN l hl hw
+
+/-! ### the wrappers, regenerated from the source
+
+`checked_shl/shr`, `saturating_shl` (a `match` on the `overflowing_*` pair), `wrapping_shl/shr` (`.0`), `arithmetic_shr`
+(`self >> rhs`, `Self::MAX << BITS.saturating_sub(rhs)`, `|=`), `rotate_left` / `rotate_right` are translated too (the
+`Shl<usize>` / `Shr<usize>` / `BitOr` operators on `Uint` are read as `wrapping_shl` / `wrapping_shr` / limb-wise `|`, which
+is what `impl_shift!` / `impl_bit_op!` forward to) and equal the models; the driver runs the generated methods. -/
+
+theorem gen_shift_wrappers_eq (bits : ℕ) (hN : nlimbs bits < 2 ^ 64) (a : List ℕ) (ha : Canon bits a) (s : ℕ) :
+    Ruint.Gen.uint_wrapping_shl (nlimbs bits + 1) bits (nlimbs bits) a s = wrappingShl bits a s
+    ∧ Ruint.Gen.uint_wrapping_shr (nlimbs bits + 1) bits (nlimbs bits) a s = wrappingShr bits a s
+    ∧ Ruint.Gen.uint_checked_shl (nlimbs bits + 1) bits (nlimbs bits) a s = checkedShl bits a s
+    ∧ Ruint.Gen.uint_checked_shr (nlimbs bits + 1) bits (nlimbs bits) a s = checkedShr bits a s
+    ∧ Ruint.Gen.uint_saturating_shl (nlimbs bits + 1) bits (nlimbs bits) a s = saturatingShl bits a s :=
+  ⟨Ruint.GenShiftWrap.wrapping_shl_eq bits hN a ha s, Ruint.GenShiftWrap.wrapping_shr_eq bits hN a ha s,
+   Ruint.GenShiftWrap.checked_shl_eq bits hN a ha s, Ruint.GenShiftWrap.checked_shr_eq bits hN a ha s,
+   Ruint.GenShiftWrap.saturating_shl_eq bits hN a ha s⟩
+
+theorem gen_arithmetic_shr_eq (bits : ℕ) (hN : nlimbs bits < 2 ^ 64) (hb : bits < 2 ^ 64) (a : List ℕ) (ha : Canon bits a)
+    (s : ℕ) :
+    Ruint.Gen.uint_arithmetic_shr (nlimbs bits + 1) bits (nlimbs bits) a s = arithmeticShr bits a s :=
+  Ruint.GenShiftWrap.arithmetic_shr_eq bits hN hb a ha s
+
+theorem gen_rotate_eq (bits : ℕ) (hN : nlimbs bits < 2 ^ 64) (hb : bits < 2 ^ 64) (a : List ℕ) (ha : Canon bits a) (s : ℕ) :
+    Ruint.Gen.uint_rotate_left (nlimbs bits + 1) bits (nlimbs bits) a s = rotateLeft bits a s
+    ∧ Ruint.Gen.uint_rotate_right (nlimbs bits + 1) bits (nlimbs bits) a s = rotateRight bits a s :=
+  ⟨Ruint.GenShiftWrap.rotate_left_eq bits hN hb a ha s, Ruint.GenShiftWrap.rotate_right_eq bits hN hb a ha s⟩
 
 end Ruint.C05
